@@ -3,7 +3,7 @@ import re
 
 from .. import audit
 from ..core import RuleResult
-from ..mir import Fn, op_local, op_root, is_passthrough
+from ..mir import Fn, Flow, op_local, op_root, is_passthrough, place_fields
 
 HASH_ADTS = ("std::collections::hash::map::HashMap", "std::collections::hash::set::HashSet")
 ORDERED_SET_RE = re.compile(r"^(core::result::Result<|core::option::Option<)?\s*(std::collections::(HashMap|HashSet|BTreeMap|BTreeSet)|"
@@ -292,6 +292,22 @@ def hash_sites(fx, crates=None):
     return out
 
 
+def _collection(fn, t):
+    """`Type.field` of the hash collection a site iterates, when it is a field of a parameter"""
+    if not t["args"]:
+        return None
+    r = op_root(t["args"][0])
+    if r is None:
+        return None
+    flow = Flow(fn)
+    for o in sorted(flow.origins(r, tuple(place_fields(t["args"][0]["pl"]))), key=str):
+        if o[0] == "arg" and o[2]:
+            ty = fn.f["locals"][o[1]]
+            adt = ty.get("core") or ty.get("adt") or ty["ty"]
+            return "%s.%s" % (adt.split("<")[0], o[2][0])
+    return None
+
+
 def rule_hash(ctx, fx=None, table=None):
     res = RuleResult("R-HASH", "every iteration over a std HashMap/HashSet (resolved calls to an iteration API, or a hash "
                      "collection handed to a foreign generic consumer) must end in an order-insensitive sink: a set/map "
@@ -329,12 +345,21 @@ def rule_hash(ctx, fx=None, table=None):
         verdicts = _classify_iter(fn, t["dest"]["l"], fx, elem_kind)
         bad = [v for v in verdicts if v[0] in ("ORDER_SENSITIVE", "ESCAPE")]
         loops = [v for v in verdicts if v[0] == "LOOP"]
+        # an audited unique-match search keeps its row when the function around it is renamed or the loop is written as
+        # find/find_map: the row also names the collection (receiver type and field) the search runs over
+        coll = _collection(fn, t)
+        row = rows.get(fn.key) or next((r_ for r_ in rows.values() if coll and r_.get("collection") == coll), None)
+        first_match = [v for v in bad if re.match(r"Iterator::(find|find_map|position|any|all)\b", v[1])]
+        if bad and len(first_match) == len(bad) and row and row["class"] == "UNIQUE_MATCH" and coll and row.get("collection") == coll:
+            acc = _accumulates(fn)
+            if not acc:
+                res.inst(ikey, file, line, "audited", "%s (search over %s): %s" % (row["class"], coll, row["reason"]))
+                continue
         if bad:
             res.inst(ikey, file, line, "violation", "; ".join(d for _, d in bad))
             res.violate(ikey, "iteration order of a hash collection reaches an order-sensitive use: %s" % "; ".join(d for _, d in bad),
                         file, line, {"verdicts": verdicts})
         elif loops:
-            row = rows.get(fn.key)
             acc = _accumulates(fn)
             if row and not acc:
                 res.inst(ikey, file, line, "audited", "%s: %s" % (row["class"], row["reason"]))
